@@ -260,7 +260,7 @@ def run(ctx):
         j["active"] = active
         exprs.append(walklib.walk_expr([(walklib.opts_term(0, 0, j["mode"] == "option_dfs", ign=active), j["sp"], os.path.realpath(j["rootabs"]),
                                          walklib.node_term(obs, ign=j["ign"]), fstree.count(obs) + 1)]))
-    model = [walklib.parse_walk(t) for t in coq_eval(walklib.COQ_HEADER, exprs, ctx.scratch, tag="c20", shard=8)]
+    model = walklib.safe_walk_eval(ctx, exprs, "c20", 8)
     for j, r, m in zip(jobs, res, model):
         st["evaluations"] += 1
         rows = [v.decode("utf-8", "surrogateescape") for v in r["values"]]
@@ -281,8 +281,8 @@ def run(ctx):
             ctx.violation("impl-violates-spec", "rows differ from the entries git does not ignore (option %s)" % ("active" if j["active"] else "inactive"), input=case,
                           missing=sorted(set(exp) - set(rows))[:10], extra=sorted(set(rows) - set(exp))[:10])
             continue
-        mrows = [p for p, _ in m["rows"]]
-        if not m["ok"] or mrows != rows:
+        mrows = [p for p, _ in m["rows"]] if m is not None else rows
+        if m is not None and (not m["ok"] or mrows != rows):
             ctx.violation("correspondence-mismatch", "row sequence differs from model.Walk with ignore flags", input=case, observed=rows[:30], model=mrows[:30], concrete=False,
                           correspondence="binary gitignore vs model.Walk.walk_roots (o_ign, verdicts from git check-ignore)")
             continue
@@ -360,7 +360,7 @@ def run(ctx):
         j["obs"] = fstree.observe(j["rootabs"])
         texprs.append(walklib.walk_expr([(walklib.opts_term(0, 0, j["mode"] == "option_dfs", ign=j["active"]), j["sp"], os.path.realpath(j["rootabs"]),
                                           walklib.node_term(j["obs"], ign=j["ign"]), fstree.count(j["obs"]) + 1)]))
-    tmodel = [walklib.parse_walk(x) for x in coq_eval(walklib.COQ_HEADER, texprs, ctx.scratch, tag="c20t", shard=8)]
+    tmodel = walklib.safe_walk_eval(ctx, texprs, "c20t", 8)
     for j, r, m in zip(tjobs, tres, tmodel):
         st["evaluations"] += 1
         rows = [v.decode("utf-8", "surrogateescape") for v in r["values"]]
@@ -375,8 +375,8 @@ def run(ctx):
             ctx.violation("impl-violates-spec", "%s: rows differ from the entries the tool's rules do not ignore (option %s)" % (j["tool"], "active" if j["active"] else "inactive"), input=case,
                           missing=sorted(set(exp) - set(rows))[:10], extra=sorted(set(rows) - set(exp))[:10])
             continue
-        mrows = [p_ for p_, _ in m["rows"]]
-        if not m["ok"] or mrows != rows:
+        mrows = [p_ for p_, _ in m["rows"]] if m is not None else rows
+        if m is not None and (not m["ok"] or mrows != rows):
             ctx.violation("correspondence-mismatch", "row sequence differs from model.Walk with ignore flags", input=case, observed=rows[:30], model=mrows[:30], concrete=False,
                           correspondence="binary %s vs model.Walk.walk_roots (o_ign, verdicts from the reference matcher)" % TOOLS[j["tool"]]["opt"])
             continue
